@@ -138,9 +138,11 @@ const (
 	Inline             // field: {c: link}
 	Nested             // field: {n: {c: link}}
 	List               // field: [link]
+	ListInline         // field: [{c: link}]   (path f/0/c: shares the segment "0" with a List sibling)
+	Inline2            // field: {c: {c: link}} (path f/c/c: shares the segment "c" with an Inline sibling)
 )
 
-var formNames = []string{"direct", "inline", "nested", "list"}
+var formNames = []string{"direct", "inline", "nested", "list", "listinline", "inline2"}
 
 type Edge struct {
 	To   int
@@ -239,6 +241,14 @@ func Build(s Shape, salt string) *DAG {
 						})
 					case List:
 						ma.AssembleEntry(name).CreateList(1, func(la fluent.ListAssembler) { la.AssembleValue().AssignLink(child) })
+					case ListInline:
+						ma.AssembleEntry(name).CreateList(1, func(la fluent.ListAssembler) {
+							la.AssembleValue().CreateMap(1, func(m2 fluent.MapAssembler) { m2.AssembleEntry("c").AssignLink(child) })
+						})
+					case Inline2:
+						ma.AssembleEntry(name).CreateMap(1, func(m2 fluent.MapAssembler) {
+							m2.AssembleEntry("c").CreateMap(1, func(m3 fluent.MapAssembler) { m3.AssembleEntry("c").AssignLink(child) })
+						})
 					}
 				}
 			})
@@ -356,6 +366,30 @@ func Shapes(maxN, variants int, withRev, withRaw, withDup bool) []Shape {
 				if withDup && n <= 3 {
 					for dup := range es {
 						out = append(out, mk(false, false, dup))
+					}
+				}
+				// sibling edges of one block all in the same link form (equal inner path segments: e0/c vs e1/c)
+				if withDup && v == 0 && len(es) >= 2 && n <= 4 {
+					for _, f := range []Form{Inline, Nested, List} {
+						s := Shape{Blocks: make([]BlockSpec, n)}
+						for _, e := range es {
+							s.Blocks[e[0]].Edges = append(s.Blocks[e[0]].Edges, Edge{To: e[1], Form: f})
+						}
+						s.Name = fmt.Sprintf("n%d.s%d.u%s", n, si, formNames[f])
+						out = append(out, s)
+					}
+					// a shallow link form next to its deeper twin (the deeper path repeats the shallow one's last segment)
+					for _, tw := range [][2]Form{{List, ListInline}, {Inline, Inline2}, {ListInline, List}, {Inline2, Inline}} {
+						s := Shape{Blocks: make([]BlockSpec, n)}
+						for k, e := range es {
+							f := tw[1]
+							if k == 0 {
+								f = tw[0]
+							}
+							s.Blocks[e[0]].Edges = append(s.Blocks[e[0]].Edges, Edge{To: e[1], Form: f})
+						}
+						s.Name = fmt.Sprintf("n%d.s%d.t%s-%s", n, si, formNames[tw[0]], formNames[tw[1]])
+						out = append(out, s)
 					}
 				}
 			}
